@@ -1,3 +1,259 @@
+/-
+C07 helper lemmas, part 6: `SignManifest`. The manifest text is an alternation of whitespace-free
+fields and single whitespace characters (`render`); `mapFields` rewrites the fields and nothing
+else; `stripPerm` deletes exactly the `+`-separated fields that start with `A`.
+-/
 import ArvVerif.Proofs.C07_Verify
 namespace ArvVerif.C07
+variable (mac : Str → Str → List UInt8)
+
+/-! ## fields and whitespace -/
+
+def NoSpace (s : Str) : Prop := ∀ c ∈ s, isSpace c = false
+
+/-- first field, then (whitespace character, field) pairs -/
+def render (f0 : Str) (rest : List (Char × Str)) : Str :=
+  f0 ++ rest.flatMap (fun p => p.1 :: p.2)
+
+/-- a decomposition into whitespace-free fields separated by single whitespace characters -/
+structure IsLayout (f0 : Str) (rest : List (Char × Str)) : Prop where
+  first : NoSpace f0
+  seps : ∀ p ∈ rest, isSpace p.1 = true
+  fields : ∀ p ∈ rest, NoSpace p.2
+
+theorem exists_layout (m : Str) : ∃ f0 rest, IsLayout f0 rest ∧ m = render f0 rest := by
+  induction m with
+  | nil => exact ⟨[], [], ⟨by simp [NoSpace], by simp, by simp⟩, rfl⟩
+  | cons c cs ih =>
+    obtain ⟨f0, rest, hl, rfl⟩ := ih
+    cases hc : isSpace c with
+    | true =>
+      refine ⟨[], (c, f0) :: rest, ⟨by simp [NoSpace], ?_, ?_⟩, by simp [render]⟩
+      · intro p hp
+        rcases List.mem_cons.mp hp with rfl | hp
+        · exact hc
+        · exact hl.seps p hp
+      · intro p hp
+        rcases List.mem_cons.mp hp with rfl | hp
+        · exact hl.first
+        · exact hl.fields p hp
+    | false =>
+      refine ⟨c :: f0, rest, ⟨?_, hl.seps, hl.fields⟩, by simp [render]⟩
+      intro d hd
+      rcases List.mem_cons.mp hd with rfl | hd
+      · exact hc
+      · exact hl.first d hd
+
+theorem mapFields_noSpace (f : Str → Str) (cur a : Str) (tail : Str) (ha : NoSpace a) :
+    mapFields f cur (a ++ tail) = mapFields f (cur ++ a) tail := by
+  induction a generalizing cur with
+  | nil => simp
+  | cons c cs ih =>
+    have hc : isSpace c = false := ha c (List.mem_cons_self ..)
+    simp only [List.cons_append, mapFields, hc, Bool.false_eq_true, if_false]
+    rw [ih _ (fun d hd => ha d (List.mem_cons_of_mem _ hd))]
+    simp
+
+/-- `mapFields` rewrites every field of a layout and leaves the separators where they are -/
+theorem mapFields_render (f : Str → Str) (cur f0 : Str) (rest : List (Char × Str))
+    (hl : IsLayout f0 rest) :
+    mapFields f cur (render f0 rest) = render (f (cur ++ f0)) (rest.map (fun p => (p.1, f p.2))) := by
+  induction rest generalizing cur f0 with
+  | nil =>
+    simp only [render, List.flatMap_nil, List.append_nil, List.map_nil]
+    have := mapFields_noSpace f cur f0 [] hl.first
+    simpa [mapFields] using this
+  | cons p rest ih =>
+    obtain ⟨c, g⟩ := p
+    have hc : isSpace c = true := hl.seps (c, g) (List.mem_cons_self ..)
+    have hl' : IsLayout g rest :=
+      ⟨hl.fields (c, g) (List.mem_cons_self ..), fun q hq => hl.seps q (List.mem_cons_of_mem _ hq),
+        fun q hq => hl.fields q (List.mem_cons_of_mem _ hq)⟩
+    have e : render f0 ((c, g) :: rest) = f0 ++ c :: render g rest := by simp [render]
+    rw [e, mapFields_noSpace f cur f0 _ hl.first]
+    simp only [mapFields, hc, if_true]
+    rw [ih [] g hl']
+    simp [render]
+
+theorem filter_isSpace_render (f0 : Str) (rest : List (Char × Str)) (hl : IsLayout f0 rest) :
+    (render f0 rest).filter isSpace = rest.map (·.1) := by
+  have h0 : ∀ a : Str, NoSpace a → a.filter isSpace = [] := by
+    intro a ha
+    rw [List.filter_eq_nil_iff]
+    intro c hc; simp [ha c hc]
+  induction rest generalizing f0 with
+  | nil => simp [render, h0 f0 hl.first]
+  | cons p rest ih =>
+    obtain ⟨c, g⟩ := p
+    have hc : isSpace c = true := hl.seps (c, g) (List.mem_cons_self ..)
+    have hl' : IsLayout g rest :=
+      ⟨hl.fields (c, g) (List.mem_cons_self ..), fun q hq => hl.seps q (List.mem_cons_of_mem _ hq),
+        fun q hq => hl.fields q (List.mem_cons_of_mem _ hq)⟩
+    have e : render f0 ((c, g) :: rest) = f0 ++ c :: render g rest := by simp [render]
+    rw [e, List.filter_append, h0 f0 hl.first, List.nil_append, List.filter_cons, if_pos hc, ih g hl']
+    simp
+
+/-! ## stripPerm -/
+
+/-- the hints that survive `mPermHintRe.ReplaceAllString(tok, "")` -/
+def notPermHint (f : Str) : Bool := f.head? != some 'A'
+
+theorem stripPerm_free_false (a rest : Str) (ha : Free '+' a) :
+    stripPerm false (a ++ rest) = a ++ stripPerm false rest := by
+  induction a with
+  | nil => rfl
+  | cons c cs ih =>
+    have hc : c ≠ '+' := ha c (List.mem_cons_self ..)
+    simp only [List.cons_append, stripPerm, hc, if_false, Bool.false_eq_true]
+    rw [ih (fun d hd => ha d (List.mem_cons_of_mem _ hd))]
+
+theorem stripPerm_free_true (a rest : Str) (ha : Free '+' a) :
+    stripPerm true (a ++ rest) = stripPerm true rest := by
+  induction a with
+  | nil => rfl
+  | cons c cs ih =>
+    have hc : c ≠ '+' := ha c (List.mem_cons_self ..)
+    simp only [List.cons_append, stripPerm, hc, if_false, if_true]
+    rw [ih (fun d hd => ha d (List.mem_cons_of_mem _ hd))]
+
+theorem stripPerm_plus_A (b : Bool) (r : Str) :
+    stripPerm b ('+' :: 'A' :: r) = stripPerm true ('A' :: r) := by
+  cases b <;> simp [stripPerm]
+
+theorem stripPerm_plus_notA (b : Bool) (rest : Str) (h : rest.head? ≠ some 'A') :
+    stripPerm b ('+' :: rest) = '+' :: stripPerm false rest := by
+  cases rest with
+  | nil => cases b <;> simp [stripPerm]
+  | cons c x =>
+    have hc : c ≠ 'A' := by simpa using h
+    clear h
+    generalize hr : stripPerm false (c :: x) = R
+    cases b <;>
+    · unfold stripPerm
+      simp only [if_true]
+      split
+      · rename_i heq; simp at heq; exact absurd heq.1 hc
+      · rw [hr]
+
+theorem head?_hints_ne_A (fs : List Str) : (hints fs).head? ≠ some 'A' := by
+  cases fs with
+  | nil => simp
+  | cons f fs => rw [hints_cons]; simp
+
+theorem stripPerm_hints (b : Bool) (fs : List Str) (hfs : ∀ f ∈ fs, Free '+' f) :
+    stripPerm b (hints fs) = hints (fs.filter notPermHint) := by
+  induction fs generalizing b with
+  | nil => cases b <;> rfl
+  | cons f fs ih =>
+    have hf := hfs f (List.mem_cons_self ..)
+    have hfs' : ∀ g ∈ fs, Free '+' g := fun g hg => hfs g (List.mem_cons_of_mem _ hg)
+    rw [hints_cons, List.cons_append]
+    cases f with
+    | nil =>
+      have hn : notPermHint [] = true := by decide
+      rw [List.filter_cons, if_pos hn, hints_cons, List.nil_append,
+        stripPerm_plus_notA b _ (head?_hints_ne_A fs), ih false hfs']
+      simp
+    | cons c cs =>
+      by_cases hA : c = 'A'
+      · subst hA
+        have hn : notPermHint ('A' :: cs) = false := by simp [notPermHint]
+        rw [List.filter_cons, if_neg (by simp [hn]), List.cons_append, stripPerm_plus_A,
+          ← List.cons_append, stripPerm_free_true _ _ hf, ih true hfs']
+      · have hn : notPermHint (c :: cs) = true := by simp [notPermHint, hA]
+        rw [List.filter_cons, if_pos hn, hints_cons,
+          stripPerm_plus_notA b _ (by simp [hA]), stripPerm_free_false _ _ hf, ih false hfs']
+        simp
+
+/-- `stripPermHints` in terms of the `+`-separated fields: the first field and every later field
+that does not start with `A` are kept, in order; fields starting with `A` disappear together
+with their `+`. -/
+theorem stripPermHints_fields {t h : Str} {fs : List Str} (e : splitOn '+' t = h :: fs) :
+    stripPermHints t = h ++ hints (fs.filter notPermHint) := by
+  obtain ⟨rfl, hh, hfs⟩ := splitOn_eq_cons e
+  show stripPerm false (h ++ hints fs) = _
+  rw [stripPerm_free_false _ _ hh, stripPerm_hints false fs hfs]
+
+theorem mem_stripPerm {b : Bool} {t : Str} {c : Char} (h : c ∈ stripPerm b t) : c ∈ t := by
+  induction t generalizing b with
+  | nil => simp [stripPerm] at h
+  | cons d ds ih =>
+    unfold stripPerm at h
+    split at h
+    · rename_i hd
+      split at h
+      · exact List.mem_cons_of_mem _ (ih h)
+      · rcases List.mem_cons.mp h with rfl | h
+        · rw [hd]; exact List.mem_cons_self ..
+        · exact List.mem_cons_of_mem _ (ih h)
+    · split at h
+      · exact List.mem_cons_of_mem _ (ih h)
+      · rcases List.mem_cons.mp h with rfl | h
+        · exact List.mem_cons_self ..
+        · exact List.mem_cons_of_mem _ (ih h)
+
+/-! ## signToken -/
+
+theorem fmt08x_chars (v : Int) : ∀ c ∈ fmt08x v, isLowerHex c = true ∨ c = '-' := by
+  intro c hc
+  unfold fmt08x padLeft at hc
+  split at hc
+  · rcases List.mem_append.mp hc with hc | hc
+    · rw [List.mem_replicate] at hc; rw [hc.2]; exact Or.inl (by decide)
+    · exact Or.inl (natHex_lowerHex _ c hc)
+  · rcases List.mem_cons.mp hc with rfl | hc
+    · exact Or.inr rfl
+    · rcases List.mem_append.mp hc with hc | hc
+      · rw [List.mem_replicate] at hc; rw [hc.2]; exact Or.inl (by decide)
+      · exact Or.inl (natHex_lowerHex _ c hc)
+
+theorem sigHint_noSpace (h tok : Str) (exp ttlNs : Int) (key : Str) :
+    NoSpace (sigHint mac h tok exp ttlNs key) := by
+  have hx : ∀ c, (isLowerHex c = true ∨ c = '-') → isSpace c = false := by
+    intro c hc
+    rcases hc with hc | rfl
+    · exact not_isSpace_of_isLowerHex hc
+    · decide
+  intro c hc
+  simp only [sigHint, List.mem_cons, List.mem_append] at hc
+  rcases hc with (rfl | rfl | hc) | rfl | hc
+  · decide
+  · decide
+  · exact not_isSpace_of_isLowerHex (List.all_eq_true.mp (hexOfDigest_lowerHex _) c hc)
+  · decide
+  · exact hx c (fmt08x_chars exp c hc)
+
+theorem signToken_nil (tok : Str) (exp ttlNs : Int) (key : Str) :
+    signToken mac tok exp ttlNs key [] = [] := by
+  simp [signToken, isBlockToken]
+
+theorem signToken_noSpace (tok : Str) (exp ttlNs : Int) (key : Str) {t : Str} (ht : NoSpace t) :
+    NoSpace (signToken mac tok exp ttlNs key t) := by
+  unfold signToken
+  split
+  · unfold signLocator
+    have hs : NoSpace (stripPermHints t) := fun c hc => ht c (mem_stripPerm hc)
+    split
+    · exact hs
+    · intro c hc
+      rcases List.mem_append.mp hc with hc | hc
+      · exact hs c hc
+      · exact sigHint_noSpace mac _ _ _ _ _ c hc
+  · exact ht
+
+/-- a block token's first `+`-field has at least 32 characters, all lowercase hex -/
+theorem signToken_block {tok key t h : Str} {fs : List Str} {exp ttlNs : Int}
+    (hb : isBlockToken t = true) (hk : key ≠ []) (htok : tok ≠ []) (e : splitOn '+' t = h :: fs) :
+    signToken mac tok exp ttlNs key t =
+      h ++ hints (fs.filter notPermHint ++
+        [sigField (makePermSignature mac h tok (fmt08x exp) (ttlHex ttlNs) key) (fmt08x exp)]) := by
+  have hke : key.isEmpty = false := by cases key <;> simp_all
+  have hte : tok.isEmpty = false := by cases tok <;> simp_all
+  have hfree := (splitOn_eq_cons e).2.1
+  have hp : hashPart (h ++ hints (fs.filter notPermHint)) = h := hashPart_hints _ hfree
+  simp only [signToken, hb, if_true, signLocator, hke, hte, Bool.or_self, Bool.false_eq_true,
+    if_false, stripPermHints_fields e, hp, sigHint]
+  rw [hints_append]
+  simp [sigField, List.append_assoc]
+
 end ArvVerif.C07
